@@ -148,6 +148,8 @@ func (a *ObjectSetAdapter) IsSpecPaused() bool {
 }
 
 func (a *ObjectSetAdapter) SetPaused() {
+	// Not a pause by the parent: a leftover marker would make the parent release it again.
+	delete(a.Annotations, pausedByParentAnnotation)
 	a.Spec.LifecycleState = corev1alpha1.ObjectSetLifecycleStatePaused
 }
 
@@ -271,6 +273,8 @@ func (a *ClusterObjectSetAdapter) IsSpecPaused() bool {
 }
 
 func (a *ClusterObjectSetAdapter) SetPaused() {
+	// Not a pause by the parent: a leftover marker would make the parent release it again.
+	delete(a.Annotations, pausedByParentAnnotation)
 	a.Spec.LifecycleState = corev1alpha1.ObjectSetLifecycleStatePaused
 }
 
